@@ -17,7 +17,7 @@ Sampled on grids (the function spaces are not finite):
 """
 import numpy as np
 
-from ..ctx import digest
+from ..ctx import digest, Skip
 from ..snap import snap, obs_digest
 from ..compare import compare_obs
 from ..ref import dense, tables, specfun
@@ -25,14 +25,14 @@ from ..ref import dense, tables, specfun
 ID = 'C20'
 LEVEL = 'exploration'
 EXHAUSTIVE = True
-DECIDING = ['constant_table_checks', 'held_results_rechecked', 'algebra_relations', 'grid_tags_known', 'grid_tags_rejected', 'eps3_tuples', 'eps4_tuples',
+DECIDING = ['boundary_applications', 'constant_table_checks', 'held_results_rechecked', 'algebra_relations', 'grid_tags_known', 'grid_tags_rejected', 'eps3_tuples', 'eps4_tuples',
             'eps_rejected', 'kn_applications', 'special_applications']
 RULE = ('tables: enumerated completely on every run (16 Clifford pairs x 2 spellings + 19 further relations, 16 + 32 Grid tags, '
         '125 + 625 + 32 index tuples, each as Python ints, numpy int8/16/32/64/intp, uint8/16/32/64, elements of an int32 array, a list, mixed signed types and bools where the index is 0/1) - exhaustive; the constant tables are compared with their state at import after every case, Grid structures and special-function results are held and re-checked after later calls; a table entry is non-trivial when a non-zero '
         'sign / a non-zero matrix was compared or a rejection was required, distinct = the entry itself. '
         'K_n and the 30 other special functions are SAMPLED: orders 0..6 on each point of a log grid of arguments in (0.05, 20) (200 quick / 2000 thorough, '
         'jittered by the seed), other functions on 20 (quick) / 120 (thorough) points per parameter choice inside the domain; argument observables on one chain, '
-        'two replicas, chain + covariance input, covariance only; non-trivial when the reference derivative is non-zero; distinct = (function, parameters, argument digest). Second hardening: logsumexp with 12 / 40 / 120 arguments, with a spectator argument of weight exactly 0 in the first / middle / last slot and with arguments near +-800; function objects re-used across cases and fresh ones with equal code; arguments compared with their digest before the call, the same argument objects applied a second time; all tables evaluated once more at the end of every worker process; counters judged:<mechanism> give the number of evaluations of every judgement')
+        'two replicas, chain + covariance input, covariance only; non-trivial when the reference derivative is non-zero; distinct = (function, parameters, argument digest). Second hardening: logsumexp with 12 / 40 / 120 arguments, with a spectator argument of weight exactly 0 in the first / middle / last slot and with arguments near +-800; function objects re-used across cases and fresh ones with equal code; arguments compared with their digest before the call, the same argument objects applied a second time; all tables evaluated once more at the end of every worker process; counters judged:<mechanism> give the number of evaluations of every judgement. Boundary kind: about 75 regular points at which a derivative rule may be singular or degenerate (argument exactly 0 for iv / ive / jn / j0 / j1 / i0 / i1 / erf / erfc / erfinv / expit, erfcinv at 1, logit at 1/2, zeros of gammaln, zeros of 1/Gamma, integer and negative orders of iv / ive / jn / yn / kn incl. float and numpy-integer orders, negative arguments, expit(+-800), erf(+-30)), each on four observable layouts whose central value and replica means hit the point exactly, 12 (quick) / 60 (thorough) times')
 ASSUMPTIONS = ['mpmath besselk/besselj/.../gammainc/betainc at 40 digits are correct; derivatives by a 50-digit symmetric difference quotient validated against mpmath.diff; K_n from the upward recurrence, cross-checked against direct besselk and (closed-form vs numerical) derivative on every 16th argument',
                'special-function values in double precision (scipy) are compared at rtol 1e-11 (1e-9 for inverse / incomplete functions), derivatives at 1e-10 / 1e-8 of the fluctuation scale',
                'derivatives are only claimed with respect to the arguments autograd differentiates (not the order of jn/yn/iv/ive/polygamma, not a of gammainc/betainc)',
@@ -205,7 +205,7 @@ def plan(tier):
     nk, _ = grid_sizes(tier)
     # table kinds come in at most 51 cases each, so the round-robin over kinds finishes every table within the first 51 rounds
     return [('algebra', len(ALGEBRA)), ('grid_tag', len(TAGS)), ('grid_held', 3), ('eps3', 5), ('eps4', 25), ('eps_out', len(EPS_OUT)),
-            ('kn', nk), ('special', len(special_cases(tier)))]
+            ('kn', nk), ('special', len(special_cases(tier))), ('boundary', len(BOUNDARY) * (12 if tier == 'quick' else 60))]
 
 
 # ------------------------------------------------------------------------------------------
@@ -453,7 +453,8 @@ def build_args(rng, xs, doms, variant, wf=2e-3, same_object=False):
     return args, ins, [s['value'] for s in ins]
 
 
-def apply_and_judge(ctx, name, consts, args, ins, vals, vtol, dtol, libcall, mech, variant, valfn=None, gradfn=None, zero_gradient_slots=(), again=False):
+def apply_and_judge(ctx, name, consts, args, ins, vals, vtol, dtol, libcall, mech, variant, valfn=None, gradfn=None, zero_gradient_slots=(), again=False,
+                    exact_point=False):
     """apply the library function to the observables and compare with the dense propagation model fed with the
     mpmath value / derivative.  Returns (result, reference, gradient) or (None, None, None)."""
     uniq = list({id(a): a for a in args}.values())
@@ -463,6 +464,11 @@ def apply_and_judge(ctx, name, consts, args, ins, vals, vtol, dtol, libcall, mec
     except Exception as e:
         # inside the domain the function must be applicable to observables (value and derivative exist)
         ctx.ev()
+        jd(ctx, mech + ':raises-inside-domain')
+        if exact_point and isinstance(e, ZeroDivisionError) and all(v == 0.0 for v in vals):
+            # cause named from the witness: the argument is exactly 0.0 and the derivative rule divides by it
+            ctx.violation(mech + ':derivative-rule-divides-by-the-argument-at-exactly-zero', {'function': name, 'parameters': list(consts), 'arguments': vals, 'exception': repr(e)[:300]})
+            return None, None, None
         ctx.violation(mech + ':raises-inside-domain', {'function': name, 'parameters': list(consts), 'arguments': vals, 'exception': repr(e)[:300]})
         return None, None, None
     if isinstance(res, np.ndarray) and res.size == 1:
@@ -485,12 +491,27 @@ def apply_and_judge(ctx, name, consts, args, ins, vals, vtol, dtol, libcall, mec
         return memo[key]
     grads = [float(g) for g in (specfun.partials(name, consts, vals) if gradfn is None else gradfn(vals))]
     fval = f(vals)
-    if name != 'gammasgn' and any(abs(g) < 1e-5 * abs(fval) / max(abs(v), 1.0) for k, (g, v) in enumerate(zip(grads, vals)) if k not in zero_gradient_slots):
+    if exact_point:
+        # a regular point picked because a derivative rule may be singular there.  The reference derivative (difference quotient,
+        # ~25 digits of the natural unit) is zero within its own error below 1e-20 units; fluctuations are compared on the scale
+        # max(|f'|, 1e-6 units): a dropped or doubled term is of the order of the unit.
+        unit = max(abs(fval), 1.0) / max(max(abs(v) for v in vals), 1.0)
+        grads = [0.0 if abs(g) < 1e-20 * unit else g for g in grads]
+        jd(ctx, mech + ':derivative-at-a-boundary-or-removable-singularity')
+        bad = [n for n in res.names if (n in res.covobs and not np.all(np.isfinite(res.covobs[n].grad))) or (n not in res.covobs and not np.all(np.isfinite(res.deltas[n])))]
+        if bad and all(np.isfinite(g) for g in grads):
+            ctx.ev()
+            ctx.violation(mech + ':derivative-not-finite-at-a-regular-point', {'function': name, 'parameters': list(consts), 'arguments': vals, 'reference_gradient': grads,
+                                                                            'value': repr(res.value)})
+            return None, None, None
+    if not exact_point and name != 'gammasgn' and any(abs(g) < 1e-5 * abs(fval) / max(abs(v), 1.0) for k, (g, v) in enumerate(zip(grads, vals)) if k not in zero_gradient_slots):
         # an extremum of f within rounding: the double-precision derivative has no relative accuracy there (borderline, not judged)
         ctx.count('borderline_derivative_within_rounding_of_zero')
         return None, None, None
     ref = dense.propagate(ins, grads, f)
     scale = dense.delta_scale(ins, grads)
+    if exact_point:
+        scale = dense.delta_scale(ins, [max(abs(g), 1e-6 * unit) for g in grads])
     if scale == 0.0:
         scale = None
     # condition-number scale for the value: a zero of f is not evaluated to relative accuracy by anybody
@@ -563,6 +584,75 @@ def run_kn(ctx, idx, rng):
             if abs(direct - table(vals[0])[n]) > mp.mpf(10) ** -28 * abs(direct) or abs(cf - nd) > mp.mpf(10) ** -22 * abs(cf):
                 raise AssertionError('mpmath reference for K_%d inconsistent at %r' % (n, vals[0]))
         ctx.count('kn_reference_self_checks')
+
+
+# regular points at which a derivative rule may be singular or degenerate: the argument exactly 0 (rules that divide by x, odd / even
+# functions), integer and negative orders, negative arguments, zeros of the function, poles of a factor of the rule, arguments
+# where exponentials under- or overflow.  (name, parameters, argument)
+BOUNDARY = ([('iv', (v,), 0.0) for v in (0, 1, -1, 2, -2, 3)] + [('ive', (v,), 0.0) for v in (0, 1, -1, 2, -2, 3)] +
+            [('jn', (n,), 0.0) for n in (0, 1, -1, 2, -2, 3)] + [(n, (), 0.0) for n in ('j0', 'j1', 'i0', 'i1', 'erf', 'erfc', 'erfinv', 'expit')] +
+            [('erfcinv', (), 1.0), ('logit', (), 0.5), ('gammaln', (), 1.0), ('gammaln', (), 2.0), ('gamma', (), 1.0), ('gamma', (), 2.0), ('rgamma', (), 1.0),
+             ('rgamma', (), 0.0), ('rgamma', (), -1.0), ('rgamma', (), -2.0), ('psi', (), 1.0), ('digamma', (), 2.0),
+             ('expit', (), 800.0), ('expit', (), -800.0), ('erf', (), 30.0), ('erf', (), -30.0), ('erfc', (), 30.0), ('erfc', (), -30.0),
+             ('iv', (-1,), 1.3), ('iv', (1,), -1.3), ('iv', (-2,), -0.7), ('iv', (-1,), -1.3), ('ive', (-1,), 1.3), ('ive', (1,), -1.3), ('ive', (-2,), -0.7),
+             ('jn', (-2,), 1.1), ('jn', (3,), -2.0), ('jn', (1,), -0.5), ('jn', (-1,), -0.5), ('yn', (-1,), 1.2), ('yn', (-2,), 2.2), ('yn', (-3,), 0.9),
+             ('j0', (), -2.0), ('j1', (), -2.0), ('i0', (), -2.0), ('i1', (), -2.0), ('kn', (-1,), 1.3), ('kn', (-2,), 0.4), ('kn', (-3,), 5.0), ('kn', (-6,), 2.0),
+             ('gammainc', (1.0,), 0.5), ('gammainc', (2.0,), 1.0), ('betainc', (1.0, 1.0), 0.5), ('polygamma', (0,), 1.0), ('polygamma', (1,), 2.0)])
+
+
+def exact_arg(rng, x0, variant, k=0):
+    """observable whose central value (and every replica mean) is EXACTLY x0: samples x0 +- d in pairs, d a multiple of 2^-12,
+    so that every partial sum is exact"""
+    pe = PE
+    ens = ['A', 'AB', 'A1'][k % 3]
+    w = 2.0 ** -6
+    if variant == 'cov-only':
+        return pe.cov_Obs(float(x0), w * w, 'cv_%s_%d' % (ens, k))
+    names = [ens + '|r1', ens + '|r2'] if variant == 'two-replicas' else [ens if rng.random() < 0.5 else ens + '|r1']
+    samples, idls = [], []
+    for n in names:
+        half = int(rng.integers(3, 10))
+        d = rng.integers(1, 400, size=half).astype(float) * 2.0 ** -12
+        x = np.empty(2 * half)
+        x[0::2] = x0 + d
+        x[1::2] = x0 - d
+        start = int(rng.integers(1, 50))
+        step = int(rng.choice([1, 2]))
+        samples.append(x)
+        idls.append(list(range(start, start + 2 * half * step, step)))
+    o = pe.Obs(samples, names, idl=idls)
+    if variant == 'chain+cov':
+        o = o + pe.cov_Obs(0.0, w * w, 'cv_%s_%d' % (ens, k))
+    return o
+
+
+def run_boundary(ctx, idx, rng):
+    name, consts, x0 = BOUNDARY[idx % len(BOUNDARY)]
+    rep_ = idx // len(BOUNDARY)
+    variant = VARIANTS[rep_ % len(VARIANTS)]
+    arg = exact_arg(rng, x0, variant)
+    ins = [snap(arg)]
+    vals = [ins[0]['value']]
+    if (vals[0] != x0 or any(ch[2] != x0 for ch in ins[0]['chains'].values())) and float(2 * x0).is_integer():
+        # the special points (0, 1/2, integers) must be hit exactly; the generic ones may move by a rounding
+        ctx.count('boundary_argument_not_exact')
+        raise Skip()
+    sp = PE.special
+    f = getattr(sp, name)
+    order_form = rep_ % 3
+    cc = tuple(consts)
+    if name in ('iv', 'ive', 'jn', 'yn', 'kn', 'polygamma') and order_form:
+        cc = (float(consts[0]),) if order_form == 1 and name != 'polygamma' else (np.int64(consts[0]),)       # the order as float / numpy integer
+
+    def libcall(v, **kw):
+        return f(*(cc + (v[0],)))
+    pars, doms, vtol, dtol = SPEC[name] if name != 'kn' else (None, None, 1e-11, 1e-10)
+    mech = 'kn' if name == 'kn' else 'special:' + name
+    res, ref, grads = apply_and_judge(ctx, name, consts, [arg], ins, vals, vtol, dtol, libcall, mech, variant, again=(rep_ % 4 == 3), exact_point=True)
+    ctx.count('boundary_applications')
+    ctx.cell('boundary', name, repr(tuple(consts)), repr(x0))
+    if res is not None and rep_ == 0:
+        ctx.sample({'function': name, 'parameters': list(consts), 'x': x0, 'variant': variant, 'value': res.value, 'reference_value': ref['value'], 'gradient': grads})
 
 
 FUNCS = {}
@@ -644,7 +734,7 @@ def run_case(ctx, kind, idx, rng):
         run_case_inner(ctx, kind, idx, rng)
     finally:
         check_constants(ctx)
-        if kind in ('kn', 'special'):
+        if kind in ('kn', 'special', 'boundary'):
             check_held(ctx)
 
 
@@ -667,5 +757,7 @@ def run_case_inner(ctx, kind, idx, rng):
         run_kn(ctx, idx, rng)
     elif kind == 'special':
         run_special(ctx, idx, rng)
+    elif kind == 'boundary':
+        run_boundary(ctx, idx, rng)
     else:
         raise ValueError(kind)
